@@ -134,12 +134,18 @@ func (s RefSpec) Dst(n plumbing.ReferenceName) plumbing.ReferenceName {
 	return plumbing.ReferenceName(before + match + after)
 }
 
-// Reverse returns the RefSpec with source and destination swapped.
+// Reverse returns the RefSpec with source and destination swapped. A leading
+// force marker stays in front of the refspec.
 func (s RefSpec) Reverse() RefSpec {
 	spec := string(s)
+	force := ""
+	if s.IsForceUpdate() {
+		force = refSpecForce
+		spec = spec[1:]
+	}
 	before, after, _ := strings.Cut(spec, refSpecSeparator)
 
-	return RefSpec(after + refSpecSeparator + before)
+	return RefSpec(force + after + refSpecSeparator + before)
 }
 
 func (s RefSpec) String() string {
